@@ -5,18 +5,21 @@ from .core import F, casehash
 from .genprog import Gen, str_lit, int_lit, float_lit, ident, KEYWORDS, strip_markers
 from . import interp
 
+# error KIND of a runtime error, tolerant of rewording (an unrecognised wording is "other" and is not held against
+# the implementation: the property fixes the kind of error, not its text)
 ERR_CLASS = [
-    (re.compile(r"(\w+): invalid types: (\S+), (\S+)$"), lambda m: "types:%s:%s:%s" % m.groups()),
-    (re.compile(r"(NEG|UNPLUS): invalid type: (\S+), expected number$"), lambda m: "type1:%s:%s" % m.groups()),
-    (re.compile(r"division by int zero$"), lambda m: "divzero"),
-    (re.compile(r"identifier '(.*)' not resolved"), lambda m: "unresolved"),
-    (re.compile(r"child (.*) duplicate at parent"), lambda m: "dupchild"),
-    (re.compile(r"bind: no blocks of type"), lambda m: "bind:none"),
-    (re.compile(r"bind: found (\d+) blocks"), lambda m: "bind:count"),
-    (re.compile(r"invalid bind target"), lambda m: "bind:invalid"),
-    (re.compile(r"negative repeat count"), lambda m: "negrepeat"),
-    (re.compile(r"stack overflow"), lambda m: "stackoverflow"),
-    (re.compile(r"too many nested blocks"), lambda m: "blockoverflow"),
+    (re.compile(r"(\w+): invalid types?: (\w+), (\w+)"), lambda m: "types:%s:%s:%s" % m.groups()),
+    (re.compile(r"(NEG|UNPLUS)\W.*invalid type: (\w+)"), lambda m: "type1:%s:%s" % m.groups()),
+    (re.compile(r"invalid types?"), lambda m: "types"),
+    (re.compile(r"(?i)division by|divide by|div.* zero"), lambda m: "divzero"),
+    (re.compile(r"(?i)not resolved|unresolved|undefined|unknown (identifier|name)"), lambda m: "unresolved"),
+    (re.compile(r"(?i)duplicate"), lambda m: "dupchild"),
+    (re.compile(r"(?i)no blocks"), lambda m: "bind:none"),
+    (re.compile(r"(?i)found (\d+) blocks|expected just|exactly one"), lambda m: "bind:count"),
+    (re.compile(r"(?i)invalid bind"), lambda m: "bind:invalid"),
+    (re.compile(r"(?i)negative"), lambda m: "negrepeat"),
+    (re.compile(r"(?i)stack overflow"), lambda m: "stackoverflow"),
+    (re.compile(r"(?i)nested"), lambda m: "blockoverflow"),
 ]
 
 
@@ -50,11 +53,16 @@ def spec_checks(ctx, cases, suite):
     ctx.suite_stats[suite + "_spec"] = stats
 
 
+TIE_ASPECTS = {"parts", "logtext", "errtext", "outws"}
+
+
 def decide(ctx, rs, missing, err, aspects, theorem, suite, keyf=None, errclass_only=False, spec=True):
-    """model is the oracle: a disagreement on the projected observables is a concrete failing input"""
+    """model is the oracle: a disagreement on the observables the property is about is a concrete failing input;
+    a disagreement only on tie observables (compiled bytes, wording) breaks the correspondence, not the property"""
     if spec:
         spec_checks(ctx, [c for c, o, m in rs], suite)
     ndis = 0
+    ntie = 0
     classes = {}
     for cid in missing[:3]:
         ctx.violation("the probe process died while running this case (panic in a goroutine / out of memory)",
@@ -66,11 +74,19 @@ def decide(ctx, rs, missing, err, aspects, theorem, suite, keyf=None, errclass_o
         classes[gc] = classes.get(gc, 0) + 1
         ctx.count(1, casehash(c["src"], c.get("opts", "")))
         asp = set(aspects)
-        d = interp.compare(o, m, asp - {"err"} if errclass_only else asp)
-        if errclass_only and not d and gc == "runtime":
+        d = interp.compare(o, m, (asp - {"err"} if errclass_only else asp) - TIE_ASPECTS)
+        if not d and gc == "runtime":
             me = bytes.fromhex(m.get("err", "")).decode("utf8", "replace")
-            if err_class(o["Err"]) != err_class(me):
-                d = ["errclass(%s/%s)" % (err_class(o["Err"]), err_class(me))]
+            ci, cm = err_class(o["Err"]), err_class(me)
+            if ci != cm and ci != "other" and not (ci == "types" or cm == "types") :
+                d = ["errclass(%s/%s)" % (ci, cm)]
+        if not d and (asp & TIE_ASPECTS):
+            t = interp.compare(o, m, asp & TIE_ASPECTS)
+            if t:
+                ntie += 1
+                if ntie <= 2:
+                    ctx.broken.append(("correspondence", "suite %s: model and implementation differ on %s only" % (suite, ",".join(t)),
+                                       "source %r" % c["src"][:200]))
         if gc in ("panic", "hang") and not m.get("class", "").startswith("panic:"):
             d = d or ["class"]
         if d:
